@@ -38,7 +38,7 @@ def observable(res, regions, with_a=False):
     """what a program can observe at the end: every RAM variable, X, Y"""
     if not res["stop"].startswith("done"):
         return (res["stop"],)
-    out = [res["stop"], res["X"], res["Y"]]
+    out = [res["stop"], res["X"], res["Y"], res.get("SP")]      # SP: what was pushed was pulled again
     if with_a:
         out.append(res["A"])
     # memory minus the trailing cctmp byte
@@ -61,7 +61,7 @@ def run_all(model, pid, result, states, layout_, which="code", fuel=20000, entry
 
 def describe(regions, res):
     """variable values of a final state, for replays"""
-    d = {"stop": res["stop"], "X": res.get("X"), "Y": res.get("Y"), "A": res.get("A")}
+    d = {"stop": res["stop"], "X": res.get("X"), "Y": res.get("Y"), "A": res.get("A"), "SP": res.get("SP")}
     off = 0
     for name, (a, nb, v) in sorted(regions.items()):
         if v["def"][0] == "none" and not v["mem"].startswith("rom"):
